@@ -170,3 +170,12 @@ Proof.
     rewrite Hu. unfold shr64. destruct (Z.ltb_spec (i32 d + 2 ^ 64) 64); [lia|reflexivity].
   - rewrite u64_id by lia. reflexivity.
 Qed.
+
+Lemma sar64_shiftr x n : 0 <= n < 64 -> sar64 x n = Z.shiftr x n.
+Proof.
+  intros H. unfold sar64. destruct (Z.ltb_spec n 64); [|lia].
+  rewrite Z.shiftr_div_pow2 by lia. reflexivity.
+Qed.
+
+Lemma land_7_range i : 0 <= Z.land i 7 < 8.
+Proof. change 7 with (Z.ones 3). change 8 with (2 ^ 3). apply land_ones_range. lia. Qed.
